@@ -37,6 +37,14 @@ T("off-colon", ["2003-09-25T10:49:41+", F("oh", 2), ":", F("om", 2)], tz="+", li
 T("off-neg4", ["2003-09-25 10:49:41 -", F("oh", 2), F("om", 2)], tz="-", lit=LIT)
 T("off-hh", ["2003-09-25 10:49:41-", F("oh", 2)], tz="-", lit=LIT)
 T("off-utc-suffix", ["2003-09-25 10:49:41 UTC+", F("oh", 2)], tz="utc+", lit=LIT)
+# hour / HHMM precision with a designator glued on, compact times with a decimal comma
+T("compact8T4-Z", [F("Y", 4), F("M", 2), F("D", 2), "T", F("h", 2), F("m", 2), "Z"], tz="utc")
+T("compact8T2-UTC", [F("Y", 4), F("M", 2), F("D", 2), "T", F("h", 2), "UTC"], tz="utc")
+T("compact8T4-plus", ["20030925T1049+", F("oh", 2), ":", F("om", 2)], tz="+", lit=dict(LIT, second=0))
+T("iso-T-hour-plus", ["2003-09-25T10+", F("oh", 2), F("om", 2)], tz="+", lit=dict(LIT, minute=0, second=0))
+T("compact8T6-comma3", [F("Y", 4), F("M", 2), F("D", 2), "T", F("h", 2), F("m", 2), F("s", 2), ",", F("f", 3)])
+T("compact8T6-dot4", [F("Y", 4), F("M", 2), F("D", 2), "T", F("h", 2), F("m", 2), F("s", 2), ".", F("f", 4)])
+T("iso-T-comma5-Z", [F("Y", 4), "-", F("M", 2), "-", F("D", 2), "T", F("h", 2), ":", F("m", 2), ":", F("s", 2), ",", F("f", 5), "Z"], tz="utc")
 T("us-slash", [F("M", 2), "/", F("D", 2), "/", F("Y", 4)])
 T("us-slash-time", [F("M", 2), "/", F("D", 2), "/", F("Y", 4), " ", F("h", 2), ":", F("m", 2)])
 T("eu-dot-dayfirst", [F("D", 2), ".", F("M", 2), ".", F("Y", 4)], dayfirst=True)
